@@ -15,3 +15,10 @@ mod types;
 pub use decoder::{DecoderOption, H263State};
 pub use error::{Error, Result};
 pub use types::{PictureOption, PictureTypeCode};
+
+/// Verification hooks: internal primitives and types (compiled only with `--cfg h263_rs_verif`).
+#[cfg(h263_rs_verif)]
+pub mod verif_hooks {
+    pub use crate::decoder::verif_cpu::*;
+    pub use crate::types::*;
+}
